@@ -138,6 +138,8 @@ PLACEMENTS = [
     ("nested-class-method", "mod", "A.B.m", "/mod/A/B/m"),
     ("nested-function", "mod", "outer.<locals>.inner", "/mod/outer/inner"),
     ("method-of-local-class", "mod", "outer.<locals>.K.m", "/mod/outer/K/m"),
+    ("two-functions-deep", "mod", "outer.<locals>.middle.<locals>.inner", "/mod/outer/middle/inner"),
+    ("method-of-a-class-two-functions-deep", "mod", "factory.<locals>.build.<locals>.Widget.meth", "/mod/factory/build/Widget/meth"),
 ]
 
 
